@@ -156,6 +156,10 @@ def scenarios(chk):
         out.append(scn('quit', b, rng.choice([0, 1]), movethread=1, stagger=rng.randint(0, 1)))
     out.append(scn('cycles', 3, 1, movethread=1, cycles=3))
     out.append(scn('reset', 5, 1, movethread=1, relog=1, loop=1))
+    # asynchronous mode switched on AGAIN (second configure(async=true)) while a backlog is queued, then the stop
+    for p, kw in (('quit', {}), ('reset', {'loop': 1}), ('reset', {'loop': 0}), ('cycles', {'cycles': 2}), ('scoped', {'loop': 0})):
+        out.append(scn(p, rng.choice([2, 3, 6]), rng.choice([1, 5]), moveagain=1, stagger=1, **kw))
+    out.append(scn('reset', 5, 2, loop=1, moveagain=1, stagger=0))
     # two stops at the same time (outside the model: only the direct oracles apply)
     out.append(scn('reset', 5, 5, loop=0, concurrent=1))
     out.append(scn('reset', rng.choice([1, 2, 8]), rng.choice([1, 3]), loop=1, concurrent=1, stagger=rng.randint(0, 1)))
